@@ -697,3 +697,84 @@ def fn_fmt_templates(f):
                 if p is not None:
                     out.append("".join(p))
     return out
+
+
+# ---------------------------------------------------------------------------------------------------------------
+# token templates of quote! bodies (LINK)
+# ---------------------------------------------------------------------------------------------------------------
+def resolve_str(f, o, depth=8):
+    """String literal an operand denotes, following copies / re-borrows of single-assignment temporaries."""
+    for _ in range(depth):
+        v = const_str(o)
+        if v is not None:
+            return v
+        pl = op_place(o)
+        if pl is None or any(e[0] != "deref" for e in pl["p"]):
+            return None
+        d = f.single_def(pl["l"])
+        if d is None or d[2] != "assign":
+            return None
+        rv = d[3]
+        if rv["r"] in ("use", "cast"):
+            o = rv["o"]
+        elif rv["r"] in ("ref", "cfd"):
+            o = {"cp": rv["p"]}
+        else:
+            return None
+    return None
+
+
+def quote_token_events(f):
+    """Ordered (block, kind, text, line) events of quote! pushes in f: ident / colon2 / interp / other."""
+    ev = []
+    for bi, b in enumerate(f.blocks):
+        t = b["term"]
+        if t["t"] != "call":
+            continue
+        g = callee_generic(t) or ""
+        if "quote::__private::push_" in g:
+            what = g.split("push_")[-1].split("::")[0]
+            if what.startswith("ident"):
+                txt = None
+                for o in t["args"][1:]:
+                    v = resolve_str(f, o)
+                    if v is not None:
+                        txt = v
+                ev.append((bi, "ident", txt, t.get("ln")))
+            elif what == "colon2" or what == "colon2_spanned":
+                ev.append((bi, "colon2", "::", t.get("ln")))
+            else:
+                ev.append((bi, "punct", what, t.get("ln")))
+        elif g.endswith("ToTokens::to_tokens"):
+            ev.append((bi, "interp", None, t.get("ln")))
+        elif g.endswith("quote::__private::parse") or g.endswith("TokenStream::from_str"):
+            v = None
+            for o in t["args"]:
+                v = const_str(o) or v
+            ev.append((bi, "parsed", v, t.get("ln")))
+    return ev
+
+
+def quote_paths(f):
+    """`a::b::c` identifier paths spliced by quote! in f -> list of (segments tuple, line)."""
+    out = []
+    cur = []
+    line = None
+    expect_ident = True
+    for (bi, kind, txt, ln) in quote_token_events(f):
+        if kind == "ident" and txt is not None and expect_ident:
+            if not cur:
+                line = ln
+            cur.append(txt)
+            expect_ident = False
+        elif kind == "colon2" and cur and not expect_ident:
+            expect_ident = True
+        else:
+            if len(cur) >= 2:
+                out.append((tuple(cur), line))
+            cur = [txt] if (kind == "ident" and txt is not None) else []
+            line = ln
+            expect_ident = not cur
+    if len(cur) >= 2:
+        out.append((tuple(cur), line))
+    return out
